@@ -120,9 +120,9 @@ func TestVerifC13BlockedWrite(t *testing.T) {
 	vfC13Anchor()
 	c := ev.For("C13")
 	c.Rule("blocked-write: real endpoint (either role; peer = reference or real) whose transport connection holds a Write before consuming the caller's slice; after the key exchange the peer writes, then the subject's application Writes run in their own goroutine with the first (padding|magic) or second (data) transport write of the first Write, or the transport write of a later Write, held; while it is held the peer's bytes are released to the subject's reader in generated chunks (orders: during the hold / before the write starts / after it completed), then the write is let through; subject's second padding steered to 0, 1, 4097 or left random; oracle as in 'stream' for both directions; non-trivial = the subject's reader consumed peer bytes while its first Write was held at the transport; fingerprint = config + script")
-	c.Floor("blocked-peer-bytes-consumed-during-first-hold/blocked", 0.35)
-	c.Floor("blocked-held@padding+magic/blocked", 0.25)
-	c.Floor("blocked-held@data/blocked", 0.10)
+	// Floors only on classes that do not presuppose how many transport writes
+	// carry the first application Write (the per-write classes are counted only).
+	c.Floor("blocked-peer-bytes-consumed-during-first-hold/blocked", 0.30)
 	c.Floor("blocked-later-write-held/blocked", 0.15)
 	rapid.Check(t, func(rt *rapid.T) {
 		arr := rapid.SampledFrom([]int{vfArrRR, vfArrRealClient, vfArrRealClient, vfArrRealServer, vfArrRealServer}).Draw(rt, "arrangement")
@@ -299,11 +299,8 @@ func TestVerifC13BlockedWrite(t *testing.T) {
 		if nt {
 			cls = append(cls, "blocked-peer-bytes-consumed-during-first-hold")
 		}
-		switch heldFirstAt {
-		case 0:
-			cls = append(cls, "blocked-held@padding+magic")
-		case 1:
-			cls = append(cls, "blocked-held@data")
+		if heldFirstAt >= 0 {
+			cls = append(cls, "blocked-first-write-held", fmt.Sprintf("blocked-first-write-held@its-transport-write#%d", heldFirstAt))
 		}
 		if laterHeld {
 			cls = append(cls, "blocked-later-write-held")
